@@ -99,7 +99,7 @@ def compose_section_desc(draw, id_prefix=None):
 
 
 # a reader object with a past: looked at, or having refused a document, before it reads the real one
-reader_past = st.sampled_from(["fresh", "fresh", "peeked", "refused-first", "peeked-and-refused"])
+reader_past = st.sampled_from(["fresh", "fresh", "peeked", "refused-first", "peeked-and-refused", "filled-before"])
 
 
 def give_past(reader, past):
@@ -108,6 +108,16 @@ def give_past(reader, past):
             reader.header.version_tuple
         except Exception:  # noqa
             pass
+    if past == "filled-before":
+        # an object somebody described by hand (another release, another compose) before it was told to read a document:
+        # what is read replaces what was there
+        for section, values in (("release", {"name": "Other OS", "short": "other", "version": "9", "type": "ga"}),
+                                ("compose", {"id": "other-9-19990101.t.7", "type": "test", "date": "19990101", "respin": 7, "label": None})):
+            obj = getattr(reader, section, None)
+            if obj is not None:
+                for k, v in values.items():
+                    if hasattr(obj, k):
+                        setattr(obj, k, v)
     if past in ("refused-first", "peeked-and-refused"):
         # a document that is refused before anything of it is filed (header only; both syntaxes)
         for text in ('{"header": {"version": "0.1"}, "payload": {}}', "[header]\nversion = 0.1\n"):
@@ -122,7 +132,7 @@ def give_past(reader, past):
     return reader
 
 
-PASTS = ["fresh", "peeked", "refused-first", "fresh", "peeked-and-refused", "fresh"]
+PASTS = ["fresh", "peeked", "refused-first", "fresh", "peeked-and-refused", "fresh", "filled-before"]
 
 
 def past_of(text):
